@@ -146,9 +146,9 @@ Definition step_rem (st : option cstate) (r : string) : option cstate :=
 Fixpoint insert_key {A} (key : A -> Z) (x : A) (l : list A) : list A :=
   match l with
   | [] => [x]
-  | y :: r => if key x <? key y then x :: y :: r else y :: insert_key key x r
+  | y :: r => if key x <=? key y then x :: y :: r else y :: insert_key key x r
   end.
-(* inserting from the right keeps equal keys in their original order *)
+(* inserting from the right, before the first element with a key >= : equal keys keep their original order *)
 Definition sort_key {A} (key : A -> Z) (l : list A) : list A :=
   fold_right (insert_key key) [] l.
 
